@@ -7,6 +7,12 @@ ID = "C01"
 GEN_DEPENDS = ["PyBits", "C01Kernels"]
 RULE = ("random rose trees 1-12 leaves (40 in thorough) built through the Node API over namespaces with extra members, removed "
         "members (holes, incl. bit 0) and shuffled taxon->bit assignment, unary nodes and polytomies, occasionally taxon-less leaves, "
+        "in 30% of the tree/build/nsmask cases the namespace is a COPY (TaxonNamespace(other), copy.copy, clone(0/1/2), deepcopy, "
+        "taxon_namespace_scoped_copy, pickle round trip; + new taxa added to the copy) of a namespace that was beforehand sorted / reversed / "
+        "shuffled / shrunk / had members re-added / had bitmasks cached by taxon_bitmask, taxa_bitmask or an encoding of a tree on a subset, "
+        "trees built in the copy or migrated through the source; every copy's taxon->bit assignment is read once per member through "
+        "taxon_bitmask and must be distinct single bits agreeing with accession_index / all_taxa_bitmask / bitmask_taxa_list (else a "
+        "clause-(a) failure replayed from the recipe), then all judges run as before; "
         "three rooting states x encode flags x entry points (encode_/update_bipartitions, encode_/update_splits, mutable, "
         "suppress_storage); pairs (re-drawn: children shuffled, unifurcations inserted, unrooted re-seeded by an independent graph "
         "re-rooting; one leaf regrafted; different shape) each encoded under independent flags; rebuilds from shuffled encodings "
@@ -266,13 +272,19 @@ def quadrants_empty(A, B, F):
 
 
 # ------------------------------------------------------------------ generators
+P_COPY = 0.3
+
+
+def make_ns(dendropy, rng, total, holes, p_copy=None):
+    """the namespace of a case: made directly, or (p_copy) a COPY - by any copy route - of a namespace that was sorted, reversed,
+    shrunk, re-grown and had bitmasks cached beforehand (`gen_recipe`); a copy with a broken bit assignment raises NamespaceBroken"""
+    if rng.random() < (P_COPY if p_copy is None else p_copy):
+        return checked_copy(dendropy, gen_recipe(rng, total, holes))
+    return tu.make_namespace(dendropy, 0, labels=["t%d" % i for i in range(total)], holes=holes)
+
+
 def gen_tree(dendropy, rng, max_leaves, hole_rate=0.3):
     n = rng.randint(1, max_leaves)
-    r = rng.random()
-    if r < 0.1:
-        shape = rng.choice(tu.shape_families(n))
-    else:
-        shape = tu.rand_shape(rng, n, p_poly=rng.choice([0.0, 0.25, 0.5]), p_unary=rng.choice([0.0, 0.1, 0.25]))
     extra = rng.randint(0, 3)
     nholes = rng.randint(0, 2) if rng.random() < hole_rate else 0
     total = n + extra + nholes
@@ -280,14 +292,23 @@ def gen_tree(dendropy, rng, max_leaves, hole_rate=0.3):
     if nholes and rng.random() < 0.5:
         holes[0] = 0
         holes = sorted(set(holes))
-    tns = tu.make_namespace(dendropy, 0, labels=["t%d" % i for i in range(total)], holes=holes)
+    tns = make_ns(dendropy, rng, total, holes)
     members = list(tns)
+    n = min(n, len(members))
+    r = rng.random()
+    if r < 0.1:
+        shape = rng.choice(tu.shape_families(n))
+    else:
+        shape = tu.rand_shape(rng, n, p_poly=rng.choice([0.0, 0.25, 0.5]), p_unary=rng.choice([0.0, 0.1, 0.25]))
     taxa = rng.sample(members, n)
-    if rng.random() < 0.15:
+    copied = getattr(tns, "_verif_recipe", None) is not None
+    if rng.random() < 0.15 and not copied:
         rng.shuffle(tns._taxa)   # membership order is independent of bits
     lens = (lambda: tu.dyadic(rng, none_rate=0.2)) if rng.random() < 0.7 else None
     rooted = rng.choice([True, False, None])
-    return tu.build_tree(dendropy, shape, tns, taxa, lens, rooted)
+    tree = tu.build_tree(dendropy, shape, tns, taxa, lens, rooted)
+    tree._verif_migrate = copied and rng.random() < 0.3
+    return tree
 
 
 def redraw(dendropy, rng, tree, unrooted):
@@ -346,12 +367,157 @@ def nested_or_disjoint(A, B):
     return (not (A & B)) or A <= B or B <= A
 
 
+class NamespaceBroken(Exception):
+    """the taxon -> bit assignment of a namespace (as read through its public API) is not an assignment of distinct bits:
+    a failure of clause (a) of the statement, reported by `judge`, never a harness crash"""
+    def __init__(self, what, recipe=None):
+        Exception.__init__(self, what)
+        self.what, self.recipe = what, recipe
+
+
+COPY_ROUTES = ("ctor", "copy", "clone0", "clone1", "clone2", "deepcopy", "scoped", "pickle")
+PREP_KINDS = ("sort", "rsort", "reverse", "shuffle", "remove", "readd", "new", "bitmask", "taxa_bitmask", "encode_subset")
+
+
+def namespace_problems(tns):
+    """the taxon -> bit assignment read once per member through the public `taxon_bitmask`: single bits, pairwise distinct,
+    agreeing with `accession_index`, inside `all_taxa_bitmask`, and mapped back to the same taxon by `bitmask_taxa_list`"""
+    probs, seen = [], {}
+    try:
+        allm = tns.all_taxa_bitmask()
+    except Exception as e:
+        return ["all_taxa_bitmask raised %s: %s" % (type(e).__name__, str(e)[:80])]
+    for t in list(tns):
+        try:
+            m = tns.taxon_bitmask(t)
+        except Exception as e:
+            probs.append("taxon_bitmask(%s) raised %s: %s" % (t.label, type(e).__name__, str(e)[:80]))
+            continue
+        if not isinstance(m, int) or m <= 0 or m & (m - 1):
+            probs.append("taxon_bitmask(%s) = %r is not a single bit" % (t.label, m))
+            continue
+        if m in seen:
+            probs.append("taxa %s and %s share bit %d" % (seen[m], t.label, m.bit_length() - 1))
+        seen.setdefault(m, t.label)
+        if m & ~allm:
+            probs.append("bit %d of %s lies outside all_taxa_bitmask %d" % (m.bit_length() - 1, t.label, allm))
+        try:
+            idx = tns.accession_index(t)
+            if (1 << idx) != m:
+                probs.append("taxon_bitmask(%s) = bit %d but accession_index = %d" % (t.label, m.bit_length() - 1, idx))
+            back = tns.bitmask_taxa_list(m)
+            if len(back) != 1 or back[0] is not t:
+                probs.append("bitmask_taxa_list(bit %d) = %s, expected [%s]" % (m.bit_length() - 1, [x.label for x in back], t.label))
+        except Exception as e:
+            probs.append("accession_index / bitmask_taxa_list for %s raised %s: %s" % (t.label, type(e).__name__, str(e)[:80]))
+    return probs
+
+
+def namespace_from_recipe(dendropy, recipe):
+    """source namespace t0..t(n-1) minus `holes`, then the recorded preparation (sort / reverse / shuffle / removals /
+    re-additions / new taxa / bitmask-cache population incl. an encoding of a tree on a subset), then ONE copy by the recorded
+    route, then `post` new taxa added to the copy.  Returns (copy, source)."""
+    import copy as _copy
+    import pickle as _pickle
+    import random as _r
+    src = dendropy.TaxonNamespace(["t%d" % i for i in range(recipe["n"])], label="src")
+    for h in sorted(recipe["holes"], reverse=True):
+        src.remove_taxon(src[h])
+    fresh = 0
+    for op in recipe["prep"]:
+        kind, a, b = op
+        members = list(src)
+        if kind == "sort":
+            src.sort()
+        elif kind == "rsort":
+            src.sort(reverse=True)
+        elif kind == "reverse":
+            src.reverse()
+        elif kind == "shuffle":
+            _r.Random(a).shuffle(src._taxa)
+        elif kind == "remove":
+            if len(members) > 2:
+                src.remove_taxon(members[a % len(members)])
+        elif kind == "readd":
+            if len(members) > 2:
+                t = members[a % len(members)]
+                src.remove_taxon(t)
+                src.add_taxon(t)
+        elif kind == "new":
+            src.new_taxon(label="n%d" % fresh)
+            fresh += 1
+        elif kind == "bitmask":
+            src.taxon_bitmask(members[a % len(members)])
+        elif kind == "taxa_bitmask":
+            rr = _r.Random(a)
+            src.taxa_bitmask(taxa=rr.sample(members, rr.randint(1, len(members))))
+        elif kind == "encode_subset":
+            rr = _r.Random(a)
+            sub = rr.sample(members, min(len(members), 2 + b % 4))
+            tr = dendropy.Tree(taxon_namespace=src)
+            for t in sub:
+                tr.seed_node.new_child(taxon=t)
+            tr.encode_bipartitions()
+        else:
+            raise ValueError("unknown namespace preparation %r" % (kind,))
+    route = recipe["route"]
+    if route == "ctor":
+        cp = dendropy.TaxonNamespace(src)
+    elif route == "copy":
+        cp = _copy.copy(src)
+    elif route in ("clone0", "clone1", "clone2"):
+        cp = src.clone(int(route[-1]))
+    elif route == "deepcopy":
+        cp = _copy.deepcopy(src)
+    elif route == "scoped":
+        cp = src.taxon_namespace_scoped_copy()
+    elif route == "pickle":
+        cp = _pickle.loads(_pickle.dumps(src))
+    else:
+        raise ValueError("unknown copy route %r" % (route,))
+    for k in range(recipe.get("post", 0)):
+        cp.new_taxon(label="p%d" % k)
+    cp._verif_recipe = recipe
+    cp._verif_source = src
+    return cp, src
+
+
+def checked_copy(dendropy, recipe):
+    import common
+    try:
+        cp, src = namespace_from_recipe(dendropy, recipe)
+    except Exception as e:
+        if not common.is_library_exception(e):
+            raise
+        raise NamespaceBroken("copying the namespace (%s after %s) raised %s: %s" % (
+            recipe["route"], [o[0] for o in recipe["prep"]], type(e).__name__, str(e)[:120]), recipe)
+    probs = namespace_problems(cp)
+    if probs:
+        raise NamespaceBroken("namespace obtained by %s after %s: %s" % (recipe["route"], [o[0] for o in recipe["prep"]], "; ".join(probs[:4])), recipe)
+    return cp
+
+
+def gen_recipe(rng, n, holes):
+    prep = []
+    for _ in range(rng.choice([0, 1, 1, 2, 2, 3, 4])):
+        prep.append([rng.choice(PREP_KINDS), rng.randrange(10 ** 6), rng.randrange(10 ** 6)])
+    if rng.random() < 0.6:       # the classic: cache some bitmasks, last
+        prep.append([rng.choice(["bitmask", "taxa_bitmask", "encode_subset"]), rng.randrange(10 ** 6), rng.randrange(10 ** 6)])
+    return {"n": n, "holes": list(holes), "prep": prep, "route": rng.choice(COPY_ROUTES), "post": rng.choice([0, 0, 0, 1, 2])}
+
+
 def namespace_desc(tns):
-    return {"bits": [tns.accession_index(t) for t in tns], "count": tns._current_accession_count}
+    d = {"bits": [tns.accession_index(t) for t in tns], "count": tns._current_accession_count}
+    if getattr(tns, "_verif_recipe", None) is not None:
+        d["recipe"] = tns._verif_recipe
+    return d
 
 
 def namespace_for(dendropy, ns):
-    """a fresh namespace with the recorded member bits (holes included) in the recorded member order"""
+    """a fresh namespace with the recorded member bits (holes included) in the recorded member order; a namespace recorded with a
+    copy recipe is rebuilt by that recipe (source, preparation, copy route) and its bit assignment re-validated"""
+    if ns.get("recipe") is not None:
+        return checked_copy(dendropy, ns["recipe"])
     tns = dendropy.TaxonNamespace(["t%d" % i for i in range(ns["count"])])
     keep = set(ns["bits"])
     for t in list(tns):
@@ -366,12 +532,19 @@ def tree_for_case(dendropy, case, key="tree", tns=None):
     """rebuild the real tree of a recorded case through the Node API"""
     tns = tns or namespace_for(dendropy, case["ns"])
     tree, ids = tu.tree_from_tokens(dendropy, case[key], rooted=UNROOT[case["rooted"]], tns=tns)
+    src = getattr(tns, "_verif_source", None)
+    if case.get("migrate") and src is not None and src is not tns and key == "tree":
+        # the tree visits the source namespace and is migrated (taxa unified by label) into the copy
+        tree.migrate_taxon_namespace(src)
+        tree.migrate_taxon_namespace(tns)
     return tree, ids
 
 
 def tree_case(tree, op, **more):
     toks, _ = tu.encode_tree(tree, with_labels=False)
     case = {"op": op, "tree": toks, "rooted": ROOT[tree.is_rooted], "ns": namespace_desc(tree.taxon_namespace)}
+    if getattr(tree, "_verif_migrate", False):
+        case["migrate"] = True
     case.update(more)
     return case
 
@@ -1151,10 +1324,17 @@ def judge_maintained(ctx, dendropy, case, pending):
             [o[0] for o in case["ops"]], got, wants[0]), case)
 
 
+def judge_nsbroken(ctx, dendropy, case, pending):
+    """a namespace copy whose bit assignment was found broken while a case was being generated: re-make it from its recipe"""
+    ctx.case(["nscopy", case["ns"]["recipe"]], True, kind="nscopy-broken")
+    namespace_for(dendropy, case["ns"])      # raises NamespaceBroken -> reported by `judge`
+
+
 JUDGES = {"pyint": judge_pyint, "pred": judge_pred, "encode": judge_encode, "reencode": judge_reencode, "pair": judge_pair,
           "rebuild": judge_rebuild, "build": judge_build, "treepreds": judge_treepreds, "stalepred": judge_stale,
           "compat": judge_compat, "ucanon": judge_ucanon, "ucanon2": judge_ucanon2, "lsb": judge_bitfunction, "normalize": judge_bitfunction,
-          "bip": judge_bip, "recompile": judge_recompile, "bits": judge_bits, "nsmask": judge_nsmask, "hist": judge_hist, "maintained": judge_maintained}
+          "bip": judge_bip, "recompile": judge_recompile, "bits": judge_bits, "nsmask": judge_nsmask, "hist": judge_hist, "maintained": judge_maintained,
+          "nsbroken": judge_nsbroken}
 
 
 def judge(ctx, dendropy, case, pending):
@@ -1163,6 +1343,8 @@ def judge(ctx, dendropy, case, pending):
     import common
     try:
         JUDGES[case["op"]](ctx, dendropy, case, pending)
+    except NamespaceBroken as e:
+        ctx.fail("encoding", "clause (a), taxon -> bit assignment: " + e.what, case)
     except Exception as e:
         if not common.is_library_exception(e):
             raise
@@ -1288,7 +1470,7 @@ def gen_build(ctx, dendropy):
     rng = ctx.rng
     n = rng.randint(2, 8)
     holes = [0] if rng.random() < 0.15 else []
-    tns = tu.make_namespace(dendropy, 0, labels=["t%d" % i for i in range(n + len(holes))], holes=holes)
+    tns = make_ns(dendropy, rng, n + len(holes), holes)
     allm = tns.all_taxa_bitmask()
     splits = []
     for _ in range(rng.randint(0, 7)):
@@ -1378,8 +1560,8 @@ def gen_nsmask(ctx, dendropy):
     rng = ctx.rng
     total = rng.randint(1, 70)
     nholes = rng.randint(0, min(3, total - 1)) if rng.random() < 0.5 else 0
-    tns = tu.make_namespace(dendropy, 0, labels=["t%d" % i for i in range(total)], holes=sorted(rng.sample(range(total), nholes)))
-    if rng.random() < 0.3:
+    tns = make_ns(dendropy, rng, total, sorted(rng.sample(range(total), nholes)), p_copy=0.5)
+    if rng.random() < 0.3 and getattr(tns, "_verif_recipe", None) is None:
         rng.shuffle(tns._taxa)
     return {"op": "nsmask", "ns": namespace_desc(tns), "i": rng.randrange(1000)}
 
@@ -1467,6 +1649,18 @@ def flush(ctx, pending):
     del pending[:]
 
 
+def gen_case(ctx, dendropy, op):
+    """generators only build inputs through the Node/namespace API: a raise here is a harness error - except that a COPIED
+    namespace whose bit assignment is broken turns into a case of its own, judged (and replayed) from its recipe"""
+    try:
+        case = GENS[op](ctx, dendropy)
+    except NamespaceBroken as e:
+        return {"op": "nsbroken", "ns": {"recipe": e.recipe}}
+    if isinstance(case.get("ns"), dict) and case["ns"].get("recipe") is not None:
+        ctx.count("namespace_copy_%s" % case["ns"]["recipe"]["route"])
+    return case
+
+
 OPS = [("pyint", 0.09), ("pred", 0.1), ("encode", 0.22), ("pair", 0.1), ("rebuild", 0.09), ("build", 0.07), ("treepreds", 0.06),
        ("stalepred", 0.03), ("reencode", 0.05), ("bip", 0.08), ("bits", 0.04), ("nsmask", 0.02), ("hist", 0.05), ("maintained", 0.14)]
 
@@ -1483,8 +1677,7 @@ def run(ctx):
         if ctx.out_of_time():
             break
         op = rng.choices(names, weights)[0]
-        case = GENS[op](ctx, dendropy)      # generators only build inputs through the Node/namespace API: a raise here is a harness error
-        judge(ctx, dendropy, case, pending)
+        judge(ctx, dendropy, gen_case(ctx, dendropy, op), pending)
         if len(pending) >= 800:
             flush(ctx, pending)
     flush(ctx, pending)
@@ -1569,5 +1762,5 @@ def search(ctx, broken):
         for _ in range(n):
             if len(ctx.failures) > 40:
                 break
-            judge(ctx, dendropy, GENS[op](ctx, dendropy), pending)
+            judge(ctx, dendropy, gen_case(ctx, dendropy, op), pending)
     del pending[:]
